@@ -316,7 +316,7 @@ def check_split_by_model(chk, rule: str = "splitter-wiring") -> bool:
         untagged = [(w, r) for w, r in recs if r["piece"] and not r["tagged"]]
         if untagged:
             w, r = untagged[0]
-            chk.violation(rule, fi.site(r["call"]), f"on one path the group `{r['table']}` reaches {w} without `{r['table']}.attrs['format']` having been set: a group of groupby does not inherit the table's attrs, so the writer / fit_to_pdb does not know the row format (fit_to_pdb refuses, write_pdb assumes PDB columns)", K(fi, "format-tag"))
+            chk.violation(rule, fi.site(r["call"]), f"on one path the group `{r['table']}` reaches {w} without `{r['table']}.attrs['format']` having been set: whether a group of groupby carries the table's attrs is left to pandas (attrs propagation is experimental there); without the tag fit_to_pdb refuses the table and write_pdb assumes PDB columns", K(fi, "format-tag"))
         else:
             chk.ok(rule, fi.where, f"{len(recs)} write path(s): every model's table is tagged with the input format before it is fitted / written")
     return True
